@@ -733,7 +733,8 @@ def check_leaf(mir, stage, err_path, res):
                     seen.add(v)
                     if cd is None:
                         cd = control_deps_transitive(fn)
-                    tests = [canon(ex.operand(fn.blocks[a]["term"]["discr"])) for (a, succ) in cd.get(i, ()) if fn.blocks[a]["term"]["k"] == "switch"]
+                    from ..mir import inline_helpers
+                    tests = [inline_helpers(mir, canon(ex.operand(fn.blocks[a]["term"]["discr"]))) for (a, succ) in cd.get(i, ()) if fn.blocks[a]["term"]["k"] == "switch"]
                     pred = want[v]
                     name_params = [k + 1 for k, t in enumerate(fn.inputs) if t["s"] == "&str"]
                     np_ = "param%d" % name_params[0] if name_params else "?"
@@ -742,9 +743,12 @@ def check_leaf(mir, stage, err_path, res):
                     ok_some = any(re.match(r"^discr\(%s\)$" % finder, t_) for t_ in tests)
                     # the finder closure is is_ascii_alphabetic
                     ok_find = False
-                    for c in fn.calls():
+                    # the finder may sit in a small helper that returns the first letter
+                    finder_fns = [fn] + [mir.fns[c.rkey] for c in fn.calls() if c.local and c.rkey in mir.fns and mir.fns[c.rkey].output and "Option<char>" in mir.fns[c.rkey].output["s"]]
+                    for c in [c_ for g_ in finder_fns for c_ in g_.calls()]:
                         if (c.rpath or "").endswith("Iterator::find"):
-                            ty = fn.local_ty(c.args[1]["pl"]["l"]) if c.args[1]["k"] in ("copy", "move") and not c.args[1]["pl"]["p"] else {}
+                            fn_c = c.fn
+                            ty = fn_c.local_ty(c.args[1]["pl"]["l"]) if c.args[1]["k"] in ("copy", "move") and not c.args[1]["pl"]["p"] else {}
                             for ck in ty.get("closures", []):
                                 cf = mir.fns.get(ck)
                                 if cf is not None:
